@@ -201,8 +201,10 @@ def evaluate(root: str, tag: str, files: dict[str, str], meta: dict[str, dict], 
         shared = [x for x in (pkg, f"{pkg}.base", f"{pkg}.sub") if x in fails]
         # stubtest expands a package to all its submodules, so packages themselves (trivial __init__ files)
         # are not passed to it
-        is_pkg = any(x.startswith(m + ".") for x in modules)
-        if m in clean and not is_pkg and all(x in clean for x in shared):
+        subs = [x for x in modules if x.startswith(m + ".")]
+        if subs and not all(x in clean for x in subs):
+            continue
+        if m in clean and all(x in clean for x in shared):
             testable.append(m)
     src_trees = {m: ast.parse(files[os.path.relpath(src_path(src, m), src)]) for m in modules}
 
